@@ -11,14 +11,6 @@ Definition vinv (v : vec) (l : list V) : Prop :=
 Lemma vinv_empty : vinv vec_empty [].
 Proof. repeat split; cbn; lia. Qed.
 
-Lemma slots_split l cap : length l < cap -> slots l cap = map Some l ++ None :: repeat None (cap - length l - 1).
-Proof. intros H. unfold slots. remember (cap - length l - 1) as k. replace (cap - length l) with (S k) by lia. reflexivity. Qed.
-Lemma slots_snoc l x cap : length l < cap -> map Some l ++ Some x :: repeat None (cap - length l - 1) = slots (l ++ [x]) cap.
-Proof. intros H. unfold slots. rewrite map_app, app_length. cbn [map length]. rewrite <- app_assoc. cbn [app].
-  do 3 f_equal. lia. Qed.
-Lemma slots_nil cap : slots [] cap = repeat None cap.
-Proof. unfold slots. cbn [map length app]. now rewrite Nat.sub_0_r. Qed.
-
 Section WithElemSize.
 Variable esz : N.
 
